@@ -1120,6 +1120,19 @@ func init() {
 		return []MultiCase{{Name: "bridge histories, oracle prices from genesis", Spec: NewBridge(cfg), Cfg: ec}, {Name: "holders adopted, no prices", Spec: NewBridge(ho), Cfg: ech},
 			{Name: "a lagging validator, rotated delegate keys", Spec: NewBridge(lr), Cfg: ec}}, bridgeAssumptions(cfg)
 	}))
+	Register("C10", MultiRunner(func(tier string) ([]MultiCase, []string) {
+		cfg, ec := bridgeCfgFor("C10", tier)
+		// batches that time out and are rebuilt: nonces must stay unique and gap-free across cancellations
+		to := cfg
+		to.Ops = opsSet("Next", "Send", "ReqBatch", "Deposit", "ExtAdvance")
+		to.Fees = []int64{7}
+		to.SendChains = []string{"ethereum"}
+		to.DepChains = []string{"ethereum"}
+		to.Seeds = [][]engine.Op{append(append([]engine.Op{}, seedObserved...), engine.OpN("Send", "ethereum", "hub", 0, 0, 0), engine.OpN("ReqBatch", "ethereum", "hub"))}
+		ect := ec
+		ect.Deadline = ec.Deadline / 2
+		return []MultiCase{{Name: "pools and permissionless requests", Spec: NewBridge(cfg), Cfg: ec}, {Name: "batches timing out and being rebuilt", Spec: NewBridge(to), Cfg: ect}}, bridgeAssumptions(cfg)
+	}))
 	for _, p := range []string{"C04", "C12"} {
 		prop := p
 		Register(prop, BFSRunner(func(tier string) (Spec, engine.Config, []string) {
